@@ -34,7 +34,6 @@ theorem ex_wf : exApp.WF where
   addr_nodup := by decide
   anc_lt := by decide
   anc_closed := by decide
-  anc_chain := by decide
   guards_anc := by decide
   preset_anc := by
     intro i hi par tbl fb h
@@ -211,7 +210,6 @@ theorem s_wf : sApp.WF where
   addr_nodup := by decide
   anc_lt := by decide
   anc_closed := by decide
-  anc_chain := by decide
   guards_anc := by decide
   preset_anc := by
     intro i hi par tbl fb h
